@@ -21,7 +21,7 @@ MOD = "vpc01"
 # ------------------------------------------------------------------------------------------------
 
 INIT = {"FC": 1, "HC": 1, "GC": 2, "LC": 1, "D": 1, "KW": 1, "G": 1, "GL": 1, "TC": 1, "SE": "z", "GV": None, "EDGE": False, "QC": 1,
-        "HID": False, "NC": 1, "GD": 1, "HD": 1}
+        "HID": False, "NC": 1, "GD": 1, "HD": 1, "WH": 1}
 
 
 def text(st):
@@ -32,6 +32,10 @@ def text(st):
         "G = %d\nGL = [%d]\nGD = %d\n\n" % (st["G"], st["GL"], st["GD"])
         + "def hd(x):\n    return x + %d\n\n" % st["HD"]
         + "%s\ndef g(x):\n    return x * %d\n\n" % (gdeco, st["GC"])
+        # a memento function with a plain helper, reached by f ONLY through a module-level modifier clone
+        + "def wh(x):\n    return x + %d\n\n" % st["WH"]
+        + "@m.memento_function\ndef w(x, k=0):\n    return wh(x) + k\n\n"
+        + "WC = w.partial(k=2)\n\n"
         + "@m.memento_function\ndef q(x):\n    return x + %d\n\n" % st["QC"]
         # (decoys: nested scopes binding the very names the enclosing function uses from the module - an inner binding must not hide
         #  the outer reference from the dependency analysis)
@@ -44,7 +48,7 @@ def text(st):
         + "    s = 1 if 'p' in {'a', %r} else 0\n" % st["SE"]
         # a module variable and a plain helper that are named ONLY two scopes down (generator expression / comprehension in a lambda)
         + "    deep = lambda y: sum(GD + k for k in (y,)) + [hd(v) for v in (y,)][0]\n"
-        + "    return h(x) + d + t[0] + lam(0) + inner(0) + s + deep(0) + %d%s%s\n" % (st["FC"], edge, hidden)
+        + "    return h(x) + d + t[0] + lam(0) + inner(0) + s + deep(0) + WC(x) + %d%s%s\n" % (st["FC"], edge, hidden)
     )
 
 
@@ -52,7 +56,7 @@ def expected(st, x=1):
     gx = x * st["GC"]
     h = gx + st["G"] + st["GL"] + st["KW"] + st["HC"]
     s = 1 if st["SE"] == "p" else 0
-    v = h + st["D"] + st["TC"] + st["LC"] + st["NC"] + s + st["FC"] + st["GD"] + st["HD"]
+    v = h + st["D"] + st["TC"] + st["LC"] + st["NC"] + s + st["FC"] + st["GD"] + st["HD"] + (x + st["WH"] + 2)
     if st["EDGE"]:
         v += gx
     if st["HID"]:
@@ -68,6 +72,7 @@ EDITS = [
     ("set-constant-element", "SE", "p", "f"), ("explicit-version-and-body-of-g", "GV", "2", "g"), ("add-call-edge", "EDGE", True, "f"),
     ("hidden-callee-constant", "QC", 2, "q"),
     ("global-named-two-scopes-down", "GD", 2, "GD"), ("helper-named-two-scopes-down", "HD", 2, "hd"),
+    ("helper-of-a-function-reached-through-a-module-level-clone", "WH", 2, "wh"),
 ]
 
 
@@ -101,7 +106,7 @@ def _deliver_inprocess(prog, st, edit):
         # simple splitter: definitions are separated by blank lines
         blocks = full.split("\n\n")
         for b in blocks:
-            for nm in ("g", "q", "h", "f", "hd"):
+            for nm in ("g", "q", "h", "f", "hd", "wh"):
                 if ("def %s(" % nm) in b:
                     parts[nm] = b.strip("\n") + "\n"
         prog.exec(parts[chunk])
